@@ -85,6 +85,9 @@ Variable bld : build.
 Variable P : program.
 Variable reenter : N -> state -> rres.
 Variable start : N -> Prop.
+(* the aborts that count as acceptable: none for the VM itself (fun _ => False); the check failure AUnmodelled
+   for the checked VM of C04VmChecked.v *)
+Variable OKA : abort -> Prop.
 
 Notation ipok := (ipok P start).
 Notation vm_inv0 := (vm_inv0 P start).
@@ -95,7 +98,7 @@ Definition ninv (s : state) : Prop :=
 Definition nst_ok (s s' : state) : Prop := ninv s' /\ length (st_heap s) <= length (st_heap s').
 Definition nres_ok (s : state) (r : nres) : Prop :=
   match r with
-  | NStop _ _ => False
+  | NStop a _ => OKA a
   | NOk v s' => nst_ok s s' /\ val_ok (st_heap s') v
   | NErr _ s' => nst_ok s s'
   end.
@@ -103,7 +106,7 @@ Definition nres_ok (s : state) (r : nres) : Prop :=
 (* the contract of the nested run *)
 Definition reenter_ok : Prop := forall ip s, ninv s -> ipok ip ->
   match reenter ip s with
-  | RStop _ _ => False
+  | RStop a _ => OKA a
   | ROk s' | RErr _ _ s' => nst_ok s s'
   end.
 
@@ -336,7 +339,7 @@ Proof.
     assert (Hl2 : length (st_heap s) <= length (st_heap s2)) by (rewrite Hh2, Hh1; apply Nat.le_refl).
     pose proof (Hre src s2 Hn2 (co_labels P start Hcode _ _ El)) as Hr.
     assert (Hd : 0 < length (st_calls s)) by (destruct (st_calls s); [congruence | cbn; lia]).
-    destruct (reenter src s2) as [s3|e ip3 s3|]; [| |contradiction].
+    destruct (reenter src s2) as [s3|e ip3 s3|]; [| |exact Hr].
     - destruct Hr as [Hn3 Hl3]. pose proof (ninv_unwind s3 _ Hn3 Hd) as Hn4.
       destruct (spop _) as [s5 v] eqn:E5.
       destruct (inv_spop P start _ _ _ E5 (proj1 (proj1 Hn4))) as (I5 & Hv5 & Hh5 & Hc5 & _).
